@@ -48,13 +48,22 @@ func (e *Effect) String() string {
 func (e *Effect) IsWrite() bool { return e.Kind == "store.set" || e.Kind == "store.delete" }
 
 type Table struct {
-	P      *prog.Program
-	Mods   *term.Mods
-	Own    map[*ssa.Function][]*Effect
-	bankT  types.Type
-	res    map[*ssa.Function]*term.Resolver
-	Unres  []string
+	P     *prog.Program
+	Mods  *term.Mods
+	Own   map[*ssa.Function][]*Effect
+	bankT types.Type
+	res   map[*ssa.Function]*term.Resolver
+	Unres []string
 	bind  map[*ssa.Parameter]ssa.Value // helper parameters bound to the arguments of the call being resolved
+	// tmpl: store accesses of functions that receive the store itself as a parameter (generic get/set helpers):
+	// they are effects of each caller, with the store the caller passes
+	tmpl map[*ssa.Function][]paramEffect
+}
+
+type paramEffect struct {
+	kind     string
+	storeIdx int // index into the function's Params of the store
+	keyIdx   int // index of the key parameter, -1 when the key is not a parameter
 }
 
 var bankMutators = map[string]bool{
@@ -85,10 +94,80 @@ func Build(p *prog.Program, mods *term.Mods) *Table {
 	if o := lookupImportedObj(p, "github.com/cosmos/cosmos-sdk/x/bank/keeper", "BaseKeeper"); o != nil {
 		t.bankT = o.Type()
 	}
+	t.tmpl = map[*ssa.Function][]paramEffect{}
 	for _, f := range p.Funcs {
 		t.scan(f)
 	}
+	t.instantiate()
 	return t
+}
+
+func paramIndex(f *ssa.Function, v ssa.Value) int {
+	v = stripIface(v)
+	for i, q := range f.Params {
+		if ssa.Value(q) == v {
+			return i
+		}
+	}
+	return -1
+}
+
+// add records a store access of f: an effect of f, or — when the store is one of f's parameters — a template
+// that is instantiated at every call of f.
+func (t *Table) add(f *ssa.Function, call ssa.CallInstruction, kind string, store, key ssa.Value) {
+	if i := paramIndex(f, store); i >= 0 {
+		ki := -1
+		if key != nil {
+			ki = paramIndex(f, key)
+		}
+		t.tmpl[f] = append(t.tmpl[f], paramEffect{kind, i, ki})
+		return
+	}
+	t.Own[f] = append(t.Own[f], t.storeEffect(f, call, kind, store, key))
+}
+
+// instantiate turns the templates of store-parameter functions into effects of their (transitive) callers.
+func (t *Table) instantiate() {
+	if len(t.tmpl) == 0 {
+		return
+	}
+	done := map[ssa.CallInstruction]bool{}
+	for round := 0; round < 4; round++ {
+		changed := false
+		for _, g := range t.P.Funcs {
+			for _, b := range g.Blocks {
+				for _, ins := range b.Instrs {
+					call, ok := ins.(ssa.CallInstruction)
+					if !ok || done[call] || call.Common().IsInvoke() {
+						continue
+					}
+					h := call.Common().StaticCallee()
+					if h == nil || len(t.tmpl[h]) == 0 {
+						continue
+					}
+					done[call] = true
+					args := call.Common().Args
+					for _, pe := range t.tmpl[h] {
+						if pe.storeIdx >= len(args) {
+							continue
+						}
+						var key ssa.Value
+						if pe.keyIdx >= 0 && pe.keyIdx < len(args) {
+							key = args[pe.keyIdx]
+						}
+						before := len(t.tmpl[g])
+						t.add(g, call, pe.kind, args[pe.storeIdx], key)
+						if len(t.tmpl[g]) != before {
+							changed = true
+						}
+					}
+				}
+			}
+		}
+		if !changed {
+			break
+		}
+	}
 }
 
 func (t *Table) resolver(f *ssa.Function) *term.Resolver {
@@ -134,18 +213,15 @@ func (t *Table) scan(f *ssa.Function) {
 			case strings.HasPrefix(name, "cosmos/store/prefix.Store."):
 				m := strings.TrimPrefix(name, "cosmos/store/prefix.Store.")
 				if k := storeKind(m); k != "" && len(cc.Args) > 0 {
-					e := t.storeEffect(f, call, k, cc.Args[0], keyArg(cc.Args, 1))
-					t.Own[f] = append(t.Own[f], e)
+					t.add(f, call, k, cc.Args[0], keyArg(cc.Args, 1))
 				}
 			case name == "sdk.KVStorePrefixIterator" || name == "sdk.KVStoreReversePrefixIterator" || name == "cosmos/types/query.Paginate" || name == "cosmos/types/query.FilteredPaginate":
 				if len(cc.Args) > 0 {
-					e := t.storeEffect(f, call, "store.iter", cc.Args[0], nil)
-					t.Own[f] = append(t.Own[f], e)
+					t.add(f, call, "store.iter", cc.Args[0], nil)
 				}
 			case cc.IsInvoke() && isKVStore(cc.Value.Type()):
 				if k := storeKind(cc.Method.Name()); k != "" {
-					e := t.storeEffect(f, call, k, cc.Value, keyArg(cc.Args, 0))
-					t.Own[f] = append(t.Own[f], e)
+					t.add(f, call, k, cc.Value, keyArg(cc.Args, 0))
 				}
 			case cc.IsInvoke() && t.IsBankIface(cc.Value.Type()):
 				m := cc.Method.Name()
